@@ -12,7 +12,7 @@ def gen_scenario(rng, max_threads):
     for _ in range(nq):
         lines.append('queue')
     for _ in range(rng.range(3, 14)):
-        c = rng.weighted([('par', 30), ('async', 20 if nq else 0), ('waitpar', 18), ('waitq', 12 if nq else 0), ('pfor', 10), ('sleep', 5), ('single', 6)])
+        c = rng.weighted([('par', 30), ('async', 20 if nq else 0), ('waitpar', 18), ('waitq', 12 if nq else 0), ('pfor', 10), ('sleep', 5), ('single', 6), ('touchother', 4)])
         if c == 'par':
             lines.append('par %d' % rng.range(1, 12))
         elif c == 'async':
@@ -24,6 +24,8 @@ def gen_scenario(rng, max_threads):
         elif c == 'pfor':
             b = rng.below(20); e = b + rng.pick([0, 1, 2, 7, 33])
             lines.append('pfor %d %d%s' % (b, e, (' %d' % rng.range(1, 9)) if rng.chance(1, 3) else ''))
+        elif c == 'touchother':
+            lines.append('touchother %d' % rng.range(2, 10))
         elif c == 'sleep':
             lines.append('sleep %d' % rng.range(10, 400))
         elif c == 'single':
@@ -61,6 +63,9 @@ CORPUS = [
     # wakes up into the teardown
     ('destroy_with_parked_workers_and_serial_job', ['seed 12 0', 'disp 4', 'queue', 'waitpar', 'sleep 300', 'async 1 1', 'del']),
     ('destroy_with_parked_workers_and_serial_jobs_2', ['seed 13 0', 'disp 2', 'queue', 'queue', 'par 2', 'waitpar', 'sleep 300', 'async 2 3', 'async 1 2', 'del']),
+    # two dispatchers alive: workers of the first ask the second for their thread id (0: not its threads) before any task of theirs
+    # asked their own; afterwards every task still sees, from its own dispatcher, the id it was handed
+    ('thread_ids_with_a_second_dispatcher', ['seed 14 0', 'disp 3', 'queue', 'touchother 12', 'par 12', 'waitpar', 'async 1 4', 'waitq 1', 'touchother 6', 'par 9', 'waitpar', 'del']),
     ('single_mode_with_work_in_flight', ['seed 4 400', 'disp 2', 'par 12', 'single 1', 'waitpar', 'par 3', 'single 0', 'par 9', 'single 1', 'pfor 0 9', 'waitpar', 'del']),
 ]
 
@@ -74,7 +79,7 @@ def tier_a(impl):
             r = (b['tags'].get('R') or ['R'])[0]
             a = (b['tags'].get('A') or [''])[0]
             bad = None
-            for m in re.finditer(r'(not_once|late|oob|twice|running_after|serial_order_violations|tid_clash|tid_out_of_range)=(\d+)', r + ' ' + a):
+            for m in re.finditer(r'(not_once|late|oob|twice|running_after|serial_order_violations|tid_clash|tid_out_of_range|tid_mismatch)=(\d+)', r + ' ' + a):
                 if int(m.group(2)) != 0:
                     bad = '%s=%s' % (m.group(1), m.group(2))
             m = re.search(r'serial_max_concurrent=(\d+)', a)
